@@ -12,7 +12,7 @@ PROPS = ("C04",)
 
 
 def plan(tier, seed):
-    return ec.plan_e2e(seed, 4, MIX, 200 if tier == "quick" else 2000)
+    return ec.plan_e2e(seed, 4, MIX, 200 if tier == "quick" else 2000, nwcap=12 if tier == "quick" else 24)
 
 
 def nontrivial(run, I):
